@@ -25,6 +25,8 @@ TInit == UInit /\ l = 1
 
 TConsts == /\ Ev.op = "init"
            /\ Ev.a = [i \in 1..NConst |-> i]         \* C13: the constants are pairwise distinct entities
+           /\ Ev.consts = ConstNodes                 \* each reads as documented: kind, spelling, name, type, transfer
+           /\ Ev.shared = TRUE                       \* and another Lexicon alive at the same time returns the same nodes
            /\ UNCHANGED uvars
 
 TReset == /\ Ev.op = "reset"
